@@ -42,6 +42,31 @@ Theorem C19_td_unbalanced_always_rejected :
   forall f samples, samples <> [] -> (forall t, accepts_currents (f t) = false) -> accepts_td f samples = false.
 Proof. exact td_unbalanced_always_rejected. Qed.
 (* sampling cannot see a defect confined to unsampled times: the known finding *)
+(* the sample times span exactly the times at which the run uses the currents: [0, skip_time] during thermalisation and
+   [0, solve_time] in the main stage (fix 9894979) *)
+Theorem C19_used_times_in_sampled_range :
+  forall solve skip t, used_time solve skip t -> 0 <= t /\ t <= sample_tmax true solve skip.
+Proof. exact used_times_in_sampled_range. Qed.
+Print Assumptions C19_used_times_in_sampled_range.
+
+Theorem C19_sampled_times_are_used :
+  forall solve skip u, 0 <= u -> u <= 1 -> 0 <= solve -> 0 <= skip -> used_time solve skip (u * sample_tmax true solve skip).
+Proof. exact sampled_times_are_used. Qed.
+Print Assumptions C19_sampled_times_are_used.
+
+Theorem C19_td_sampled_imbalance_rejected :
+  forall repaired f solve skip us u,
+    In u us -> accepts_currents (f (u * sample_tmax repaired solve skip)) = false ->
+    accepts_td f (sample_times repaired solve skip us) = false.
+Proof. exact td_sampled_imbalance_rejected. Qed.
+Print Assumptions C19_td_sampled_imbalance_rejected.
+
+(* as found, a time used by the thermalisation stage was outside the sampled range *)
+Theorem C19_sampled_range_as_found_refuted :
+  exists solve skip t, used_time solve skip t /\ ~ t <= sample_tmax false solve skip.
+Proof. exact sampled_range_as_found_refuted. Qed.
+Print Assumptions C19_sampled_range_as_found_refuted.
+
 Theorem C19_td_unbalanced_window_refuted :
   exists f samples bad, accepts_currents (f bad) = false /\ samples <> [] /\ accepts_td f samples = true.
 Proof. exact td_unbalanced_window_refuted. Qed.
